@@ -33,7 +33,8 @@ def names_case(draw):
         sel = draw(gen.agg_selects(table, limit=False))
     else:
         sel = draw(gen.plain_selects(table, limit=False, max_targets=4))
-    sel['limit'] = None
+    # the shape does not depend on how many rows are delivered: LIMIT 0 / 1 / 3 on two cases in five
+    sel['limit'] = draw(st.sampled_from([None, None, None, 0, 0, 1, 3, 100]))
     if draw(st.integers(0, 3)) == 0 and sel['targets'] != '*':
         # duplicate a target (same name twice)
         sel['targets'] = list(sel['targets']) + [draw(st.sampled_from(sel['targets']))]
